@@ -4,6 +4,7 @@ import (
 	"encoding/binary"
 	"errors"
 	"fmt"
+	"math"
 )
 
 const (
@@ -132,6 +133,9 @@ var (
 	// ErrPanic and errors wrapping ErrPanic report runtime errors, such
 	// as an index out of bounds or a stack overflow.
 	ErrPanic = errors.New("user error")
+	// ErrOperandRange is returned when an operand does not fit into its
+	// 16 bit encoding, e.g. more than 65535 constants or globals.
+	ErrOperandRange = fmt.Errorf("%w: operand out of range", ErrInternal)
 	// ErrUnknownOpcode is returned when an unknown opcode is encountered.
 	ErrUnknownOpcode = fmt.Errorf("%w: unknown opcode", ErrInternal)
 )
@@ -213,6 +217,9 @@ func Make(op Opcode, operands ...int) ([]byte, error) {
 	offset := 1
 	for i, o := range operands {
 		width := def.OperandWidths[i]
+		if width == 2 && (o < 0 || o > math.MaxUint16) {
+			return nil, fmt.Errorf("%w: operand %d of %s does not fit into 16 bits", ErrOperandRange, o, def.Name)
+		}
 		if width == 2 {
 			binary.BigEndian.PutUint16(instruction[offset:], uint16(o)) //nolint:gosec // we are just going to be lax about overflow errors at the moment
 		}
